@@ -398,6 +398,45 @@ def o2(ctx):
         ctx.check(whole_name(k), "O6:table-keyed-by-whole-name:%s" % c.callee.name, "the interning table is accessed with the name exactly as given (%s)" % c.callee.name,
                   "Slot::named %ss the interning table with %s, not with the name it was given: two different names (e.g. `x` and `$x`) are interned as one slot, a name can be stored under a spelling that denotes a different kind of slot when printed and parsed back, and the fresh counter is not moved past it" % (c.callee.name, role_str(k)[:70]), where_of(ncl, c.bb))
     ctx.floor("accesses of the interning table in Slot::named", nkeys, 3)
+    # what is handed to the number parser: the whole name (numeric slots), or the name minus exactly ONE leading `f` (`&s[1..]`
+    # behind starts_with("f"), or strip_prefix('f')).  Anything else (`trim_start_matches('f')`, trimming, case folding ..) makes
+    # several spellings one slot: `$ff7` would be `$f7`.
+    nparse = 0
+    for vb in (nm, ncl):
+        for c in vb.calls:
+            if vb.blocks[c.bb]["cleanup"] or not c.callee or c.callee.target not in parse_bounds or not c.args:
+                continue
+            nparse += 1
+            r = strip_role(vb.role_of_operand(c.args[0]))
+            for _ in range(4):
+                if isinstance(r, tuple) and r[0] == "call" and r[1] in ("deref", "borrow", "as_ref", "as_str") and r[3]:
+                    r = strip_role(r[3][0])
+            ok_ = whole_name(r)
+            if not ok_ and isinstance(r, tuple) and r[0] == "call" and r[1] == "index" and len(r[3]) == 2 and whole_name(r[3][0]):
+                rng = strip_role(r[3][1])
+                ok_ = isinstance(rng, tuple) and rng[0] == "agg" and str(rng[1]).endswith("RangeFrom") and len(rng[2]) == 1 and strip_role(rng[2][0])[0] == "const" and str(strip_role(rng[2][0])[1]).startswith("1_")
+            if not ok_:
+                # Some-payload of strip_prefix(s, 'f')
+                for x in role_walk(r):
+                    if isinstance(x, tuple) and x[0] == "call" and x[1] == "strip_prefix" and x[3] and whole_name(x[3][0]) and not any(isinstance(y, tuple) and y[0] == "call" and y[1] not in ("strip_prefix", "deref", "borrow", "as_ref", "and_then", "map", "branch", "from_residual") for y in role_walk(r)):
+                        ok_ = True
+            ctx.check(ok_, "O6:number-parsed-from-name-or-name-minus-one-f:%d" % nparse, "the number parser gets the name, or the name without its single leading f",
+                      "Slot::named parses a number out of %s — not the name itself nor the name with exactly one leading `f` removed: differently spelled names (`$ff7`, `$fff7`, `$f7`) become one slot, and a user name can coincide with a slot Slot::fresh() already handed out" % role_str(r)[:70], where_of(vb, c.bb))
+    # the parser handed to a combinator: `s.strip_prefix('f').and_then(parse_canonical_u30)`
+    helper_fn_names = {crate.bodies[h].name for h in parse_bounds} | {getattr(crate.bodies[h], "real_name", crate.bodies[h].name) for h in parse_bounds}
+    for vb in (nm, ncl):
+        for c in vb.calls:
+            if vb.blocks[c.bb]["cleanup"] or not c.callee or c.callee.name not in ("and_then", "map", "filter_map") or len(c.args) < 2:
+                continue
+            f_ = strip_role(vb.role_of_operand(c.args[1]))
+            if not (isinstance(f_, tuple) and f_[0] == "fnconst" and str(f_[1]).split("::")[-1].split("<")[0] in helper_fn_names):
+                continue
+            nparse += 1
+            src = strip_role(vb.role_of_operand(c.args[0]))
+            ok_ = isinstance(src, tuple) and src[0] == "call" and src[1] == "strip_prefix" and src[3] and whole_name(src[3][0])
+            ctx.check(ok_, "O6:number-parsed-from-name-or-name-minus-one-f:%d" % nparse, "the number parser is applied to strip_prefix(name, 'f')",
+                      "Slot::named applies the number parser to %s — not the name with exactly one leading `f` removed" % role_str(src)[:70], where_of(vb, c.bb))
+    ctx.floor("calls of the number parser in Slot::named", nparse, 2)
     ctx.check(kinds["f"] >= 2 and kinds["hit"] >= 1 and kinds["new"] >= 1, "paths-covered", "paths through Slot::named's closure: %s" % kinds, "unexpected path structure in Slot::named: %s" % kinds, where_of(ncl))
     ctx.floor("Slot(..) constructions interpreted", sites, 4)
     ctx.extra["obligation_paths"] = {"named_closure_paths": len(paths)}
